@@ -13,7 +13,7 @@ DESIGN_REF = "DESIGN.md section 4 / C08"
 CHUNK = 1
 RULE = ("complete enumeration, for n<=3, of per-variable (box letter in {free,lo,up,box}) "
         "x (position L/I/U) x (gradient letter from 5 values incl. 0 and equal magnitudes "
-        "=> tied breakpoints) x memory contents (0,1,2,2',3 stored pairs + dense pairs) x iteration number {1, and 0 when pairs are stored}, "
+        "=> tied breakpoints) x memory contents (0,1,2,2',3 stored pairs + dense pairs) x iteration number {1, and 0 when pairs are stored} x magnitude {1, and 1e-9 for n<=2: point, box and gradient scaled}, "
         "plus tilings of every 2-variable pattern to n in 4..10, plus every input "
         "intercepted at lbfgsb.main.get_cauchy_point during real runs; each input is given "
         "to the real get_cauchy_point and compared with a dense piecewise-quadratic "
@@ -54,7 +54,12 @@ def _one(c):
     if F.pgnorm(x, g, lb, ub) == 0:
         return None
     mats = comp.mats_for(c["n"], c["ps"])
-    out, xr, B = comp.check_gcp(x, g, lb, ub, comp.fresh_mats(mats), c.get("it", 1))
+    mag = float(c.get("mag", 1.0))
+    if mag != 1.0:
+        # magnitude letter: point, box and gradient all scaled (the model matrix is not):
+        # the Cauchy point scales with them
+        x, g, lb, ub = x * mag, g * mag, lb * mag, ub * mag
+    out, xr, B = comp.check_gcp(x, g, lb, ub, comp.fresh_mats(mats), c.get("it", 1), unit=mag)
     return out, x, g, lb, ub, xr
 
 
@@ -74,6 +79,9 @@ def run(case):
         cs = comp.expand(case)
         if case.get("it0") and case["ps"] not in (0, "0"):
             cs = [c_ for c in cs for c_ in (c, dict(c, it=0))]
+        if case.get("it0") and case["n"] <= 2:
+            # magnitude letter (problems living at 1e-9: absolute constants show)
+            cs = list(cs) + [dict(c, mag=1e-9) for c in comp.expand(case)]
         for c in cs:
             r = _one(c)
             if r is None:
